@@ -96,7 +96,10 @@ static void check_decode(ctx_t *x, int si, uint32_t present, int p, int force, i
     pres_t pr; pres_build(&pr, s, idx, cnt, pres_almode(p), 0, &r);
     char *out = (char *)(uintptr_t)0x1; uint64_t outlen = 0xdeadbeef;
     static char *dummy[1];
-    int rc = liberasurecode_decode(x->desc, cnt ? pr.ptr : dummy, cnt, s->flen, force, &out, &outlen);
+    /* one call in four goes through the separately created twin instance of the same configuration */
+    int desc = (x->desc2 > 0 && (mon_case_idx & 3) == 3) ? x->desc2 : x->desc;
+    if (desc != x->desc) mon_count("calls_through_twin_instance", 1);
+    int rc = liberasurecode_decode(desc, cnt ? pr.ptr : dummy, cnt, s->flen, force, &out, &outlen);
     mon_count("evaluations", 1);
     mon_count("decode_calls", 1);
     if (rc == 0) {
@@ -108,7 +111,7 @@ static void check_decode(ctx_t *x, int si, uint32_t present, int p, int force, i
             mon_viol(PROP, "decode-wrong-bytes", "decode returned 0 but byte %llu of %llu differs (got %02x want %02x)",
                      (unsigned long long)off, (unsigned long long)s->len, ((uint8_t *)out)[off], s->data[off]);
         }
-        liberasurecode_decode_cleanup(x->desc, out);
+        liberasurecode_decode_cleanup(desc, out);
     } else if (rc > 0) {
         mon_viol(PROP, "decode-positive-rc", "decode returned positive code %d", rc);
     } else {
@@ -134,7 +137,9 @@ static void check_reconstruct(ctx_t *x, int si, uint32_t present, int p, int des
     uint8_t *out = malloc(s->flen ? s->flen : 1);
     memset(out, 0xCD, s->flen);
     static char *dummy[1];
-    int rc = liberasurecode_reconstruct_fragment(x->desc, cnt ? pr.ptr : dummy, cnt, s->flen, dest, (char *)out);
+    int desc = (x->desc2 > 0 && (mon_case_idx & 3) == 1) ? x->desc2 : x->desc;
+    if (desc != x->desc) mon_count("calls_through_twin_instance", 1);
+    int rc = liberasurecode_reconstruct_fragment(desc, cnt ? pr.ptr : dummy, cnt, s->flen, dest, (char *)out);
     mon_count("evaluations", 1);
     mon_count("reconstruct_calls", 1);
     int in_range = dest >= 0 && dest < n;
